@@ -34,6 +34,42 @@ pub fn byte_xor(arr1: &[u8], arr2: &[u8]) -> Vec<u8> {
     o
 }
 
+/// Deserialize a scalar, checking the human readable form is exactly 32 hex encoded bytes
+/// before handing it to the curve library
+pub fn deserialize_scalar_checked<'de, D: serde::Deserializer<'de>>(
+    d: D,
+) -> Result<Scalar, D::Error> {
+    use serde::{de::Error, Deserialize};
+
+    if d.is_human_readable() {
+        let hex_str = String::deserialize(d)?;
+        let mut bytes = [0u8; 32];
+        hex::decode_to_slice(hex_str.as_str(), &mut bytes).map_err(D::Error::custom)?;
+        return Option::<Scalar>::from(Scalar::from_be_bytes(&bytes))
+            .ok_or_else(|| D::Error::custom("invalid scalar"));
+    }
+    <Scalar as Deserialize>::deserialize(d)
+}
+
+/// Deserialize a group element, checking the human readable form is exactly
+/// the hex encoded compressed point before handing it to the curve library
+pub fn deserialize_point_checked<'de, D, G>(d: D) -> Result<G, D::Error>
+where
+    D: serde::Deserializer<'de>,
+    G: GroupEncoding + serde::Deserialize<'de>,
+{
+    use serde::{de::Error, Deserialize};
+
+    if d.is_human_readable() {
+        let hex_str = String::deserialize(d)?;
+        let mut repr = G::Repr::default();
+        hex::decode_to_slice(hex_str.as_str(), repr.as_mut()).map_err(D::Error::custom)?;
+        return Option::<G>::from(G::from_bytes(&repr))
+            .ok_or_else(|| D::Error::custom("invalid group element"));
+    }
+    G::deserialize(d)
+}
+
 pub fn get_crypto_rng() -> ChaCha20Rng {
     ChaCha20Rng::from_entropy()
 }
